@@ -201,6 +201,10 @@ class SDFS(SubFS):
     copydir = FS.copydir
     movedir = FS.movedir
     readtext = FS.readtext
+    writefile = FS.writefile
+    writetext = FS.writetext
+    appendtext = FS.appendtext
+    hash = FS.hash
 
     def getmeta(self, namespace: str = 'standard') -> 'Mapping[str, object]':
         meta = dict(super().getmeta(namespace))
